@@ -94,6 +94,12 @@ CHECKS["C20"] = dict(
     text="Every (name variant x password variant) login for 7 configured users (among them two whose names coincide after NFKC normalisation, one with a role that forbids login, one with a capitalised name, one with a composed accent) and unknown names: succeeds exactly for a configured name with the matching password and a role permitting login, as that user with that role; the issued token has exactly that role's rights on three probes. Every truncation, single-bit flip, single-character substitution and a menu of re-encodings of two valid session tokens, admin-token variants, a token issued by a second instance (and this instance's token there): refused on every probe over both transports. Peer users: only the mapped names, verbatim. Audit records of accepted commands name the authenticated identity.",
     note="OpenID Connect needs an external provider and is not exercised. The session key and nonces are random per instance; the verdicts do not depend on their values (a mutation that equals the genuine token is skipped). Passwords are compared after the trimming/NFKC normalisation which the hash generator itself applies.")
 
+CHECKS["C15"] = dict(
+    engine="E1", category="model_checking", design="4/C15",
+    technique="explicit-state exploration (fork-checkpointed DFS) of trust-anchor proxy/signer exchanges on the real aggregates, with the harness carrying the messages: genuine, replayed, stale, re-ordered, cross-wired and modified requests and responses, two children requesting concurrently, a key roll of a child in between",
+    text="Every sequence (up to the completed depth) of: child c1/c2 synchronising with the TA, the proxy opening a signer request, the signer processing the latest or the previous pooled request (genuine, clear text altered, nonce altered, signed part swapped with the other pooled request or with a message signed by the signer's own key), the proxy being handed the latest or previous pooled response (genuine, nonce rewritten to the open one, child responses dropped, revision number lowered, signed part swapped with the other pooled response or with a message signed by the proxy's key), a key roll of c1: a request is opened only when none is open; the signer processes only unaltered requests signed by the proxy; the proxy accepts only the unaltered response carrying the open nonce; refused messages leave proxy/signer unchanged; no key has an open request and an open response at once and a fetched response leaves the proxy; TA manifest numbers in proxy, signer and repository never decrease and a changed manifest has a higher number; the tree stays relying-party valid.",
+    note=E1_NOTE + " The scheduler is not run in this model (it would perform the whole exchange itself); hook H7 exposes the signer half of sync_ta_proxy_signer_if_possible. Signer re-initialisation is not reachable through the public API of an embedded TA and is not explored.")
+
 CHECKS["C10"] = dict(
     engine="E1", category="model_checking", design="4/C10",
     technique="explicit-state exploration (fork-checkpointed DFS) of publication-delta sequences from several publishers on the real RepositoryManager against a per-publisher reference map",
